@@ -6,6 +6,8 @@ import RsslVerif.Model.Macro
 same function with a fuel argument (structural recursion); `applyLoopF_sound`: whenever it answers, `applyLoop`
 returns that answer.  Used for the negation witnesses in `Thm/C12.lean`.
 -/
+deriving instance DecidableEq for Except
+
 namespace RsslVerif.Lemmas.MacroEval
 open RsslVerif.Model.Macro
 
